@@ -10,6 +10,8 @@ The save / reopen half of the property is evaluated on the real code by the harn
 composition needs the parse / flatten model of C08 and the record codec of C01).
 -/
 import PsdVerif.Lemmas.TreeRefine3
+import PsdVerif.Lemmas.TreeTable
+import PsdVerif.Generated.TreeTable
 
 namespace PsdVerif.C09
 open PsdVerif PsdVerif.TreeSt
@@ -63,5 +65,42 @@ example : ((Spec.runLists (abs demo) [.moveToGroup 1 2, .append 2 3, .moveUp 1 5
 /-- a refused operation in the middle of a history is skipped by the replay -/
 example : acceptedOps .current demo [.append 2 3, .extend 2 [2], .pop 2 7, .moveToGroup 2 2, .remove 2 3] =
     [.append 2 3, .remove 2 3] := by decide
+
+
+/-! ### The mutators as the source writes them (regenerated table, `Model/TreeTable.lean`) -/
+
+open PsdVerif.TreeTable in
+/-- **the table machine refines plain lists, one call**: for any table with the standard helper descriptions and the
+rows of the `GroupMixin` list mutators (`StdRows`; the regenerated table has them: `C10.current_table_std`), an
+accepted call is exactly the list operation -/
+theorem table_step_refines (t : Table) (h : StdRows t = true) (s : State) (op : Op) (hop : Op.listMutator op = true)
+    (i : Inv s) (hacc : (tableStep t s op).2.isError = false) :
+    ∃ v, Spec.apply (abs s) op = .ok (abs (tableStep t s op).1, v) ∧ Agrees (tableStep t s op).2 v := by
+  rw [tableStep_eq_step h s op hop] at hacc ⊢
+  exact step_acc s op i hacc
+
+open PsdVerif.TreeTable in
+/-- a refused call of the table machine leaves every list as it was -/
+theorem table_refused_refines (t : Table) (h : StdRows t = true) (s : State) (op : Op) (hop : Op.listMutator op = true)
+    (e : Err) (i : Inv s) (he : (tableStep t s op).2 = .error e) (hne : e ≠ .recursionError) :
+    abs (tableStep t s op).1 = abs s := by
+  rw [tableStep_eq_step h s op hop] at he ⊢
+  exact (step_ref s op e i he hne).abs
+
+open PsdVerif.TreeTable in
+/-- **the table machine refines plain lists, histories** of list mutators (guarded: inserted layers detached) -/
+theorem table_history_refines (t : Table) (h : StdRows t = true) (s : State) (ops : List Op)
+    (hops : ∀ op, op ∈ ops → Op.listMutator op = true) (i : Inv s) (hg : Guarded .current s ops) :
+    Spec.runLists (abs s) (acceptedOps .current s ops) = .ok (abs (tableRun t s ops).1) := by
+  rw [tableRun_eq_run h s ops hops]
+  exact run_refines s ops i hg
+
+/-- the regenerated table on a history: insert, replace a slice, delete, pop -/
+def tableDemoOps : List Op := [.setslice 0 (some 0) (some 1) [], .insert 0 0 2, .append 2 3, .pop 0 (-1), .delitem 2 0]
+
+example : ((PsdVerif.TreeTable.tableRun Generated.TreeTable.table demo tableDemoOps).1.children 0,
+    (PsdVerif.TreeTable.tableRun Generated.TreeTable.table demo tableDemoOps).1.children 2,
+    (PsdVerif.TreeTable.tableRun Generated.TreeTable.table demo tableDemoOps).2) =
+    ([2], [], [Out.none, Out.none, Out.none, Out.id 1, Out.none]) := by decide
 
 end PsdVerif.C09
